@@ -15,8 +15,13 @@
 EXTENDS FibexModel
 C == INSTANCE DltCodec
 
-\* message ids are 4-byte big-endian sequences; TLC integers are 32 bit, and no document names an id >= 2^31
-IdText(idb) == IF idb[1] >= 128 THEN "ID_big" ELSE "ID_" \o ToString(((idb[1] * 256 + idb[2]) * 256 + idb[3]) * 256 + idb[4])
+\* message ids are 4-byte big-endian sequences; TLC integers are 32 bit, so the decimal text of ids up to 2^32 - 1 is put together
+\* from the quotient and remainder by 10 000 (hi * 65536 + lo = (6 * hi) * 10000 + (5536 * hi + lo), every intermediate value < 2^31)
+Pad4(r) == (IF r < 10 THEN "000" ELSE IF r < 100 THEN "00" ELSE IF r < 1000 THEN "0" ELSE "") \o ToString(r)
+IdText(idb) == LET hi == idb[1] * 256 + idb[2]  lo == idb[3] * 256 + idb[4]
+                   t == 5536 * hi + lo
+                   q == 6 * hi + t \div 10000  r == t % 10000 IN
+               "ID_" \o (IF q = 0 THEN ToString(r) ELSE ToString(q) \o Pad4(r))
 \* the ids documents use (TLC strings cannot be taken apart): a table; any other id matches no document id
 TextOf(b) == CASE b = <<65, 80, 80>> -> "APP" [] b = <<67, 84, 88>> -> "CTX" [] OTHER -> "?"
 RECURSIVE Flatten(_)
